@@ -36,7 +36,7 @@ size_t frgv_region_len; uintptr_t frgv_region_ret; _Bool frgv_region_live;
 /* tracked block: [frgv_blk, frgv_blk + frgv_blk_cap) with the first frgv_blk_unp bytes unpoisoned */
 char *frgv_blk; size_t frgv_blk_cap, frgv_blk_unp;
 /* tracked header object and whether it is currently poisoned */
-char *frgv_hdr; size_t frgv_hdr_len; _Bool frgv_hdr_poisoned;
+char *frgv_hdr; size_t frgv_hdr_len; _Bool frgv_hdr_poisoned; size_t frgv_hdr_unp; size_t frgv_track_new_hdr;
 /* guarded-by: object whose fields may only be touched while frgv_guard is held (0 = no such object) */
 void *frgv_guarded; size_t frgv_guarded_lo, frgv_guarded_hi; struct frgv_vmutex *frgv_guard;
 
@@ -61,15 +61,15 @@ static void poison_range(void *p, size_t n, int how)      /* how: 0 unpoison, 1 
 		else if (how == 0) frgv_blk_unp = n;
 		else if (n > frgv_blk_unp) frgv_blk_unp = n;
 	} else if (frgv_hdr && (char *)p == frgv_hdr) {
-		if (how == 1) { __CPROVER_assert(n <= frgv_hdr_len, "C03: poison range exceeds the header"); frgv_hdr_poisoned = 1; }
-		else frgv_hdr_poisoned = 0;
+		if (how == 1) { __CPROVER_assert(n <= frgv_hdr_len, "C03: poison range exceeds the header"); frgv_hdr_poisoned = 1; frgv_hdr_unp = 0; }
+		else { frgv_hdr_poisoned = 0; frgv_hdr_unp = n; }          /* the first n bytes of the header are accessible */
 	}
 }
 void frgv_access(void *a, size_t n)
 {
 #define OFF(p) ((size_t)__CPROVER_POINTER_OFFSET(p))
 	if (frgv_hdr && __CPROVER_same_object(a, frgv_hdr) && OFF(a) >= OFF(frgv_hdr) && OFF(a) < OFF(frgv_hdr) + frgv_hdr_len)
-		__CPROVER_assert(!frgv_hdr_poisoned, "C03: the pool reads or writes a poisoned frame header");
+		__CPROVER_assert(!frgv_hdr_poisoned && OFF(a) - OFF(frgv_hdr) + n <= frgv_hdr_unp, "C03: the pool reads or writes a poisoned frame header");
 	if (frgv_blk && __CPROVER_same_object(a, frgv_blk) && OFF(a) >= OFF(frgv_blk) && OFF(a) < OFF(frgv_blk) + frgv_blk_cap)
 		__CPROVER_assert(OFF(a) - OFF(frgv_blk) + n <= frgv_blk_unp, "C03: the pool reads or writes a poisoned byte of a block");
 	if (frgv_guarded && __CPROVER_same_object(a, frgv_guarded)) {
@@ -97,6 +97,7 @@ static uintptr_t policy_map(size_t length, _Bool unaligned, size_t sb)
 	if (unaligned) { off = nondet_size_t(); __CPROVER_assume(off < sb && (off & 7) == 0); }     /* unaligned policy: arbitrary 8-aligned start */
 	char *p = arena_alloc(length + off);
 	frgv_last_map_ret = frgv_p2i(p + off); frgv_last_map_len = length;
+	if (frgv_track_new_hdr && !unaligned) { frgv_hdr = p; frgv_hdr_len = frgv_track_new_hdr; frgv_hdr_poisoned = 1; frgv_hdr_unp = 0; }   /* a fresh mapping is poisoned */
 	return frgv_last_map_ret;
 }
 static void policy_unmap(uintptr_t base, size_t length)
@@ -244,7 +245,7 @@ void h_##P##_free_huge(void) \
 	MK_LARGE(P, POLN, UNALIGNED, region, f, area); \
 	size_t before = nondet_size_t(); __CPROVER_assume(before >= (area + PAGE) / PAGE); pool._usedPages = before; \
 	frgv_region_live = 1; frgv_region_ret = f->sb_base; frgv_region_len = f->sb_reservation; \
-	frgv_hdr = (char *)f; frgv_hdr_len = sizeof(*f); frgv_hdr_poisoned = 0; \
+	frgv_hdr = (char *)f; frgv_hdr_len = sizeof(*f); frgv_hdr_poisoned = 0; frgv_hdr_unp = frgv_hdr_len; \
 	P##_free_huge_(&pool, f, FRGV_I2P(f->address)); \
 	__CPROVER_assert(frgv_unmap_calls == 1 && !frgv_region_live, "C03: freeing a large block returns its whole reservation, exactly once"); \
 	__CPROVER_assert(pool._usedPages == before - (area + PAGE) / PAGE, "C03: the used-page counter falls by exactly what was added when the frame was attached"); \
@@ -356,7 +357,9 @@ void h_##P##_construct_slab(void) \
 { \
 	POOL_INIT(P, pool, pol); \
 	const int idx = SLAB_INDEX; const size_t item = 8UL << idx; \
+	frgv_track_new_hdr = sizeof(struct P##_slab_frame);          /* the header of the new slab starts out poisoned (aligned policy) */ \
 	struct P##_slab_frame *slb = P##__construct_slab(&pool, idx); \
+	frgv_track_new_hdr = 0; \
 	__CPROVER_assert(frgv_map_calls == 1 && frgv_held_locks == 0, "exactly one map call, no lock held"); \
 	if (!slb) { __CPROVER_assert(frgv_map_failed == 1, "C04: null only when Policy::map returned 0"); } \
 	else { \
@@ -523,7 +526,7 @@ void h_##P##_free_large(void) \
 	MK_LARGE(P, POLN, UNALIGNED, region, f, area); \
 	size_t before = nondet_size_t(); __CPROVER_assume(before >= (area + PAGE) / PAGE); pool._usedPages = before; \
 	frgv_region_live = 1; frgv_region_ret = f->sb_base; frgv_region_len = f->sb_reservation; \
-	frgv_hdr = (char *)f; frgv_hdr_len = sizeof(*f); frgv_hdr_poisoned = 0; \
+	frgv_hdr = (char *)f; frgv_hdr_len = sizeof(*f); frgv_hdr_poisoned = 0; frgv_hdr_unp = frgv_hdr_len; \
 	_Bool sized = nondet_bool(); size_t sz = nondet_size_t(); __CPROVER_assume(sz <= area); \
 	if (sized) P##_deallocate(&pool, FRGV_I2P(f->address), sz); else P##_free(&pool, FRGV_I2P(f->address)); \
 	__CPROVER_assert(frgv_unmap_calls == 1 && !frgv_region_live && pool._usedPages == before - (area + PAGE) / PAGE && frgv_held_locks == 0, \
@@ -541,7 +544,7 @@ void h_##P##_realloc_large(void)      /* RE_OLD -> RE_NEW bytes, both large: in 
 		size_t cap = f->length; size_t k = nondet_size_t(); __CPROVER_assume(k < RE_OLD && k < RE_NEW); \
 		char pat = (char)nondet_size_t(); p[k] = pat; \
 		frgv_region_live = 1; frgv_region_ret = f->sb_base; frgv_region_len = f->sb_reservation; \
-		frgv_blk = p; frgv_blk_cap = cap; frgv_blk_unp = RE_OLD; frgv_hdr = (char *)f; frgv_hdr_len = sizeof(*f); frgv_hdr_poisoned = 0; \
+		frgv_blk = p; frgv_blk_cap = cap; frgv_blk_unp = RE_OLD; frgv_hdr = (char *)f; frgv_hdr_len = sizeof(*f); frgv_hdr_poisoned = 0; frgv_hdr_unp = frgv_hdr_len; \
 		char *q = P##_realloc(&pool, p, RE_NEW); \
 		if (RE_NEW <= cap) { __CPROVER_assert(q == p && frgv_map_calls == maps0 && frgv_unmap_calls == 0, "C02: realloc is in place when the new size fits the frame: no map, no unmap"); } \
 		else if (!q) { __CPROVER_assert(frgv_map_failed == fails0 + 1 && frgv_unmap_calls == 0 && frgv_region_live && p[k] == pat, "C04: when the allocation inside realloc fails the source block stays valid with its contents"); } \
@@ -609,7 +612,7 @@ void h_pa_realloc_large_move(void)
 	char *p = region + PAGE;
 	size_t g = nondet_size_t(); __CPROVER_assume(g < area); char pat = p[g];
 	frgv_blk = p; frgv_blk_cap = area; frgv_blk_unp = area; frgv_alloc_calls = 0; frgv_free_calls2 = 0;
-	frgv_hdr = (char *)f; frgv_hdr_len = sizeof(*f); frgv_hdr_poisoned = 0;
+	frgv_hdr = (char *)f; frgv_hdr_len = sizeof(*f); frgv_hdr_poisoned = 0; frgv_hdr_unp = frgv_hdr_len;
 	char *q = pa_realloc(&pool, p, RL_NEW);
 	__CPROVER_assert(frgv_alloc_calls == 1 && frgv_alloc_len == RL_NEW, "C02: a large block that no longer fits its frame is reallocated by one allocation of the new size");
 	if (!q) __CPROVER_assert(frgv_free_calls2 == 0 && p[g] == pat, "C04: if that allocation fails the source block is untouched and stays live");
